@@ -352,6 +352,48 @@ def shape_case_lit(font, seqs, text):
     return "(" + listlit([_seqlit(s) for s in seqs]) + ", " + _seqlit(text) + ", " + obs + ")"
 
 
+def run_bitmap_advance(report):
+    """cbdt / sbix through the real command line (resvg renders the bitmaps): the advance rule for viewBoxes whose
+    pixel width at the strike height is not a whole number (F34: the advance is computed from the rendered bitmap's
+    pixel size, not from the viewBox)"""
+    import io as _io
+
+    from PIL import Image
+
+    H = '<svg xmlns="http://www.w3.org/2000/svg" viewBox="0 0 %d %d"><path d="M5,5 L%d,5 L%d,%d L5,%d Z" fill="#cc0000"/></svg>'
+    boxes = [(100, 300), (270, 100), (100, 100)]
+    srcs = [(build.filename_for((0x1F600 + k,)), H % (w, h, w - 5, w - 5, h - 5, h - 5), (0x1F600 + k,)) for k, (w, h) in enumerate(boxes)]
+    for fmt in ("sbix", "cbdt"):
+        over = dict(color_format=fmt, upem=1000, ascender=950, descender=-250, width=100, bitmap_resolution=64)
+        case = dict(kind="e2e-cli", format=fmt, config={k: str(v) for k, v in over.items()}, sources=[s_[1] for s_ in srcs])
+        try:
+            font, cfg, picos, data = build.build_cli(over, srcs, "flag")
+        except Exception as ex:
+            case["error"] = f"{type(ex).__name__}: {ex}"[-1200:]
+            report_failure(report, f"bitmap_advance_build_{fmt}", case)
+            return
+        report.count(("bitmap-advance", fmt), True)
+        report.hist("e2e.format", fmt + " via command line (advance rule)")
+        probs, pixel_rule = [], True
+        for (fn, text, cps), (w, h) in zip(srcs, boxes):
+            g = font.getBestCmap().get(cps[0])
+            adv = font["hmtx"][g][0]
+            want = e2e.expected_advance(cfg, (0, 0, w, h))
+            if adv != want:
+                if fmt == "sbix":
+                    img = bytes(list(font["sbix"].strikes.values())[0].glyphs[g].imageData)
+                else:
+                    img = bytes(next(sd[g].imageData for sd in font["CBDT"].strikeData if g in sd))
+                pw, ph = Image.open(_io.BytesIO(img)).size
+                from_pixels = e2e.expected_advance(cfg, (0, 0, pw, ph))
+                pixel_rule = pixel_rule and adv == from_pixels
+                probs.append(f"{g}: viewBox {w}x{h}: advance {adv}, the rule gives {want} (the bitmap is {pw}x{ph} px; computed from that: {from_pixels})")
+        if probs:
+            case["problems"] = probs
+            if report_failure(report, f"bitmap_advance_{fmt}", case, "F34-bitmap-advance-from-pixel-aspect" if pixel_rule else None):
+                return
+
+
 def main(argv):
     common.setup_env()
     tier = common.tier_from_args(argv)
@@ -370,6 +412,7 @@ def main(argv):
         run_model_corr(report, 80 if tier == "quick" else 1500, random.Random(rng.getrandbits(48)))
     run_e2e(report, 26 if tier == "quick" else 520, rng, ALL_FORMATS)
     run_f3_witness(report)
+    run_bitmap_advance(report)
     if not st["proof_ok"] and not report.violations:
         report.violation("proof", dict(kind="proof", theorem="Props/C04.v", detail=report.notes.get("proof_failure")), found_input=False)
     report.open_obligations = [
